@@ -126,3 +126,14 @@ func signedELS(r *core.Rand, sigType int, offline bool, transientType int) signe
 	l.Sig, _ = signer.Sign(msg, r)
 	return signedCase{kind: "encleaseset", bytes: l.Encode(), shape: sh, identKey: key, transient: tk, destSigType: sigType}
 }
+
+// encryptForTest encrypts plaintext with the reference implementation to a fresh recipient
+// and returns the blob and the recipient's private key bytes.
+func encryptForTest(r *core.Rand, plaintext []byte) (blob []byte, recipientPriv []byte, err error) {
+	priv, pub, err := rm.X25519KeyPair(r.Bytes(32))
+	if err != nil {
+		return nil, nil, err
+	}
+	blob, err = rm.EncryptInner(plaintext, pub, r.Bytes(32), r.Bytes(12))
+	return blob, priv, err
+}
